@@ -853,6 +853,21 @@ class Evaluator:
     def st_Expr(self, st, fr):
         if isinstance(st.value, ast.Constant):
             return None
+        v = st.value
+        if isinstance(v, ast.Call) and isinstance(v.func, ast.Attribute) and v.func.attr == "sort" and not v.args \
+                and isinstance(v.func.value, (ast.Name, ast.Attribute)) and all(k.arg in ("axis", "kind") for k in v.keywords):
+            recv = self.eval(v.func.value, fr)
+            if isinstance(recv, V) and not isinstance(recv, (Const, Tup)):
+                # x.sort(): the event is recorded by the library model; the name now holds the sorted array (and so does the
+                # array it is a reshaped view of)
+                self.eval(st.value, fr)
+                new = mk_app("sort", [recv])
+                self.rebind(v.func.value, new, fr)
+                if isinstance(v.func.value, ast.Name) and isinstance(recv, App) and recv.fn == "reshape" and recv.args:
+                    for nm, val in list(fr.vars.items()):
+                        if isinstance(val, V) and val == recv.args[0]:
+                            fr.vars[nm] = App("reorder:sorted-through-view", (val,))
+                return None
         self.eval(st.value, fr)
         return None
 
